@@ -98,7 +98,7 @@ def coqc_file(path, timeout=600, extra_q=()):
 def props_theorems(relpath):
     """Names of the theorems in a Props.v file and the order of its Print Assumptions."""
     src = open(os.path.join(COQ, 'theories', relpath)).read()
-    thms = re.findall(r'^\s*(?:Theorem|Example)\s+([A-Za-z0-9_\']+)', src, re.M)
+    thms = re.findall(r'^\s*Theorem\s+([A-Za-z0-9_\']+)', src, re.M)
     prints = re.findall(r'^\s*Print Assumptions\s+([A-Za-z0-9_\']+)\s*\.', src, re.M)
     return thms, prints
 
@@ -145,7 +145,7 @@ def check_props(prop_dir, timeout=900):
                 res['stdlib_axioms'].append(a)
                 continue
             res['bad_axioms'].append((name, a))
-    missing = [t for t in thms if t.startswith('c') and t not in prints]
+    missing = [t for t in thms if t not in prints]
     if missing:
         res['ok'] = False
         res['log'] += f'\n[check] theorems without Print Assumptions: {missing}'
@@ -205,7 +205,7 @@ def coq_str(s):
     b = s.encode('utf-8') if isinstance(s, str) else s
     if all(32 <= c < 127 for c in b):
         return '"' + b.decode('ascii').replace('"', '""') + '"'
-    return '(sbytes [' + ';'.join(str(c) for c in b) + '])'
+    return '(sbytes [' + ';'.join(str(c) for c in b) + ']%N)'
 
 
 def run_cases(name, header, body, timeout=900):
